@@ -676,7 +676,7 @@ RULES = {
 }
 
 
-def run(prop, tier, seed, src, jobs):
+def run(prop, tier, seed, src, jobs, want=None):
     fams = FAMILIES[prop]
     budget = 40 if tier == "quick" else 600
     total = 1600 if tier == "quick" else 40000
@@ -690,13 +690,16 @@ def run(prop, tier, seed, src, jobs):
     # keep only violations of this property or of the cross-cutting ones observed here (C14/C13/C06 are reported by their own checks too)
     # the elimination primitives are hypotheses of the C01 / C02 theorem chains: their violations break the chain
     allowed = {prop} | ({"C04"} if prop in ("C01", "C02") else set())
+    if want:
+        # run as an extra monitor of another property's check: only that property's violations count here
+        allowed = {want}
     for r in results:
         v = r.get("violation")
         if v and v.get("prop") not in allowed:
             r["other_violation"] = v
             r["violation"] = None
     confirm(results, src)
-    out = summarise("m_algebra[%s]" % prop, results, " | ".join(rule), "bounded stand-in: <=6 variables, <=6 terms per list, random sampling with seed %d" % seed)
+    out = summarise("m_algebra[%s]" % prop if not want else "m_algebra[%s for %s]" % (prop, want), results, " | ".join(rule), "bounded stand-in: <=6 variables, <=6 terms per list, random sampling with seed %d" % seed)
     return out
 
 
